@@ -26,9 +26,9 @@ theorem exec_oof_sticky (M : Machine σ α π) (P : Prog) (n : Nat) :
         · obtain ⟨e, g, rfl⟩ := hem
           rw [exec_acts_emit] at h
           have h1 := ih _ _ h
-          by_cases c : M.aliveE r.m e = true
+          by_cases c : M.aliveE r.m (r.emId e) = true
           · simp only [c, if_true] at h1
-            rcases hb : M.begin e g r.m with ⟨m1, o⟩
+            rcases hb : M.begin (r.emId e) g r.m with ⟨m1, o⟩
             rw [hb] at h1
             cases o with
             | none => exact h1
@@ -78,9 +78,9 @@ theorem exec_fuel_mono (M : Machine σ α π) (P : Prog) (n : Nat) :
           rw [exec_acts_emit] at h ⊢
           rw [exec_acts_emit]
           have h1 := exec_oof_sticky M P n _ _ h
-          by_cases c : M.aliveE r.m e = true
+          by_cases c : M.aliveE r.m (r.emId e) = true
           · simp only [c, if_true] at h h1 ⊢
-            rcases hb : M.begin e g r.m with ⟨m1, o⟩
+            rcases hb : M.begin (r.emId e) g r.m with ⟨m1, o⟩
             rw [hb] at h h1
             cases o with
             | none => simp only at h ⊢; exact ih _ _ h k hk
